@@ -498,4 +498,62 @@ example : testName { exR with trailers := 2 } ≠ "" ∧
     Fb.trailers ∈ (checks 0 { exR with trailers := 2 }).feedback := by decide
 example : testName { exR with headers := [] } = "" := by decide
 
+/-! ## The handler chain of `createServer` (reference mode)
+
+The checks see the request as it arrived; the "HTTP/1.1 bidi stream pretends to be HTTP/2"
+wrapper sits *inside* them, directly around the mux.  So the matrix theorems hold for every
+procedure, in particular for a half-duplex BidiStream over HTTP/1.1, while connect-go still
+receives such a request as HTTP/2. -/
+
+/-- The feedback (and the recorded timeout) of a request through the chain is that of
+`referenceServerChecks` on the request as it arrived, whatever the procedure. -/
+theorem chain_outcome (count : Nat) (path : String) (r : Req) :
+    (serverChain count path r).outcome = checks count r := rfl
+
+/-- No feedback iff everything matches, for every procedure (URL path). -/
+theorem chain_no_feedback_iff_match (path : String) (e : Aspects) (n : String) (a : Aspects) (v : Variant)
+    (hn : n ≠ "") (hr : a.realisable = true) :
+    (serverChain 0 path (render e n a v)).outcome.feedback = [] ↔ aspectsMatch e a = true := by
+  rw [chain_outcome]; exact no_feedback_iff_match e n a v hn hr
+
+/-- Each deviating aspect is named, for every procedure. -/
+theorem chain_each_mismatch_named (path : String) (e : Aspects) (n : String) (a : Aspects) (v : Variant)
+    (hn : n ≠ "") (hr : a.realisable = true) :
+    flagsExactly e a (serverChain 0 path (render e n a v)).outcome.feedback = true := by
+  rw [chain_outcome]; exact each_mismatch_named e n a v hn hr
+
+/-- What the mux receives: the request after the timeout header was removed, its HTTP version
+untouched except that an HTTP/1 request for the BidiStream procedure is presented as HTTP/2. -/
+theorem chain_inner (count : Nat) (path : String) (r : Req) (hn : testName r ≠ "") :
+    (serverChain count path r).inner = some
+      (if hasSuffix path bidiStreamProcedure = true ∧ r.major = 1
+       then { afterTimeout r with major := 2 } else afterTimeout r) := by
+  have hne : (testName r == "") = false := by simpa using hn
+  have hm : (afterTimeout r).major = r.major := by
+    unfold afterTimeout; split <;> rfl
+  simp only [serverChain, checks, hne, Bool.false_eq_true, if_false, pretendHTTP2, hm,
+    Bool.and_eq_true, beq_iff_eq]
+
+/-- A request without test name does not reach the mux. -/
+theorem chain_rejected (count : Nat) (path : String) (r : Req) (hn : testName r = "") :
+    (serverChain count path r).inner = none ∧ (serverChain count path r).outcome.feedback = [] := by
+  simp [serverChain, checks, hn]
+
+private def exBidi : Aspects := ⟨.h1, .post, .connect, .proto, .identity, false, false⟩
+private def exBidiV : Variant := ⟨true, false, false⟩
+
+/-- Non-vacuity, and why the order of the wrappers matters: a half-duplex BidiStream request
+over HTTP/1.1 that matches its test in every aspect gets no feedback and reaches the mux as
+HTTP/2; were the checks run *after* the rewrite they would report the HTTP version of that same
+request (and miss a real deviation from an HTTP/2 expectation). -/
+theorem chain_bidi_http1_witness :
+    exBidi.realisable = true ∧
+    (serverChain 0 bidiStreamProcedure (render exBidi "S/t" exBidi exBidiV)).outcome.feedback = [] ∧
+    ((serverChain 0 bidiStreamProcedure (render exBidi "S/t" exBidi exBidiV)).inner.map (·.major)) = some 2 ∧
+    ((serverChain 0 "/connectrpc.conformance.v1.ConformanceService/ClientStream"
+        (render exBidi "S/t" exBidi exBidiV)).inner.map (·.major)) = some 1 ∧
+    (checks 0 (pretendHTTP2 bidiStreamProcedure (render exBidi "S/t" exBidi exBidiV))).feedback = [.version] ∧
+    (checks 0 (pretendHTTP2 bidiStreamProcedure
+        (render { exBidi with version := .h2 } "S/t" exBidi exBidiV))).feedback = [] := by decide
+
 end ConfModel.Props.C12
